@@ -69,6 +69,25 @@ var RuleSets = []RuleSet{
 		}
 		return !(strings.HasPrefix(s.Metric, "go_") || strings.HasPrefix(s.Metric, "process_"))
 	}},
+	// rule PIPELINES: a keep/drop rule that reads a label an earlier rule wrote
+	{Name: "rewrite-then-drop", YAML: `  metric_relabel_configs:
+  - source_labels: [code]
+    target_label: __tmp_class
+    regex: (.).*
+    replacement: ${1}xx
+  - source_labels: [__tmp_class]
+    regex: 5xx
+    action: drop
+`, Keep: func(s Sample) bool { c := label(s, "code"); return !(len(c) > 0 && c[0] == '5') }},
+	{Name: "copy-then-keep", YAML: `  metric_relabel_configs:
+  - source_labels: [env]
+    target_label: stage
+    regex: (prod|devel)
+    replacement: live-$1
+  - source_labels: [stage]
+    regex: live-.*
+    action: keep
+`, Keep: func(s Sample) bool { e := label(s, "env"); return e == "prod" || e == "devel" }},
 	{Name: "keep-nothing", YAML: `  metric_relabel_configs:
   - source_labels: [__name__]
     regex: no_such_metric
